@@ -634,7 +634,20 @@ func init() {
 		case 3:
 			r = s1.SymmetricDifference(s2)
 		}
-		return opRes{vals: r.Values(), s: fmt.Sprint(r.Length())}
+		before := r.Values()
+		// the result is the task's own set: changing it must leave both (shared) operands alone
+		ety := r.ElementType()
+		if x := sampleOfType(t.w, ety, p[2]/4); x != cty.NilVal {
+			r.Add(x)
+		}
+		if len(before) > 0 {
+			r.Remove(before[(p[2]/8)%len(before)])
+		}
+		has := false
+		if x := sampleOfType(t.w, ety, p[2]/16); x != cty.NilVal {
+			has = s1.Has(x) || s2.Has(x)
+		}
+		return opRes{vals: before, s: fmt.Sprint(len(before), r.Length(), has)}
 	})
 	defOp("PathSetOps", "helper.fork", func(t *taskState, a [3]cty.Value, p [3]int) opRes {
 		if len(t.w.psets) == 0 {
@@ -642,9 +655,22 @@ func init() {
 		}
 		s1 := t.w.psets[p[0]%len(t.w.psets)]
 		s2 := t.w.psets[p[1]%len(t.w.psets)]
-		own := s1.Union(s2)
+		var own cty.PathSet
+		switch p[1] / 7 % 5 {
+		case 0:
+			own = s1.Union(s2)
+		case 1:
+			own = s1.Intersection(s2)
+		case 2:
+			own = s1.Subtract(s2)
+		case 3:
+			own = s1.SymmetricDifference(s2)
+		case 4:
+			own = s1.Union(cty.NewPathSet()) // an empty operand: the result is still a set of its own
+		}
 		pa := t.w.paths[p[2]%len(t.w.paths)]
 		own.Add(pa.Copy())
+		own.AddAllSteps(t.w.paths[(p[2]+3)%len(t.w.paths)])
 		own.Remove(t.w.paths[(p[2]+1)%len(t.w.paths)])
 		l := s1.List()
 		n := len(l)
